@@ -51,6 +51,8 @@ def build(s, runtime, only=None, exclude=()):
     elif runtime == "command":
         lines.append('rt, rterr, rtcode := @cat("in.txt")')
         S = "rt"
+    elif runtime == "rawliteral":
+        S = "`" + s + "`"             # the raw form: everything between the back quotes is the value, line breaks included
     else:
         S = gen_strings.go_quote(s)
     for name, src, exp in paths(S, s, runtime):
@@ -81,8 +83,10 @@ def run(res, b, tier, seed):
         strings.append(("random", "".join(rng.choice(gen_strings.ALPHABET) for _ in range(n))))
     cases = []
     for label, s in strings:
-        for origin in ("literal", "file", "stdin", "command"):
-            if origin != "literal" and ("\n" in s or s == ""):
+        for origin in ("literal", "rawliteral", "file", "stdin", "command"):
+            if origin == "rawliteral" and ("`" in s or "\r" in s):
+                continue            # a raw literal cannot contain a back quote (and the lexer folds CR LF in the source text)
+            if origin not in ("literal", "rawliteral") and ("\n" in s or s == ""):
                 # a run-time value that ends in a line break loses it in $(...) / read: not generated (DESIGN 7/C08);
                 # embedded line breaks cannot come from `input` (one line); keep them for the literal origin only
                 continue
@@ -146,7 +150,7 @@ def run(res, b, tier, seed):
         distinct_nontrivial=len({(c.meta["s"], c.meta["origin"]) for c in cases}),
         rule="every character of the 97-character alphabet (printable ASCII, line feed, tab) in only/first/middle/last position (quick: only + one rotating "
              "position), %d shell-significant special strings, random strings; x 13 data paths (print, assign, concat, compare, call/return, slice literal, "
-             "slice store, slice range, subscript, len, string range, write/read, multi-print) x 4 origins (literal, file, standard input, command output); "
+             "slice store, slice range, subscript, len, string range, write/read, multi-print) x 5 origins (interpreted literal, raw literal, file, standard input, command output); "
              "oracle: stdout byte for byte, empty stderr, exit 0, no canary file; distinct = distinct (string, origin)" % len(gen_strings.SPECIALS),
         samples=[dict(string=cases[5].meta["s"], origin=cases[5].meta["origin"], program=cases[5].meta["src"][:400])],
         correspondence=dict(stage="AST + bash script (whole model pipeline)", compared=len(cases), disagreements=len(dis)),
@@ -190,6 +194,6 @@ def _exec(arg):
 
 def classify(s, path, origin):
     """regions of the listed known findings"""
-    if origin == "literal" and ("$" in s or "`" in s):
+    if origin in ("literal", "rawliteral") and ("$" in s or "`" in s):
         return "literal-dollar-backquote-expanded"
     return None
